@@ -28,7 +28,29 @@ BUDGET = {
 }
 
 
+# tiny pipelines whose workers share lazily filled state of the stages below the
+# prefetch (key tables): every one-preemption schedule at line granularity of core.py
+TINY_CORE = [
+    (3, [{'op': 'slice', 'sl': [2, 0, 1]}, {'op': 'items'},
+         {'op': 'prefetch', 'w': 2, 'b': 2, 'backend': 't'}]),
+    (3, [{'op': 'reshuffle', 'seed': 5}, {'op': 'items'},
+         {'op': 'prefetch', 'w': 2, 'b': 2, 'backend': 't'}]),
+    (2, [{'op': 'concat', 'n': 1, 'kind': 'dict', 'offset': 100, 'map': None}, {'op': 'items'},
+         {'op': 'prefetch', 'w': 2, 'b': 2, 'backend': 't'}]),
+    (3, [{'op': 'slice', 'sl': [1, 2]}, {'op': 'cache'},
+         {'op': 'prefetch', 'w': 2, 'b': 2, 'backend': 't'}]),
+]
+
+
 def gen_systematic(rng):
+    if rng.random() < 0.3:
+        import json as _json
+        n, st = TINY_CORE[rng.randrange(len(TINY_CORE))]
+        desc = {'source': {'kind': 'dict', 'n': n},
+                'stages': [{'op': 'map', 'id': 'u0'}] + _json.loads(_json.dumps(st))}
+        base = {'desc': desc, 'epochs': 1, 'items': False, 'cost_seed': None, 'think_seed': 0,
+                'think_max': 0, 'trace': ['parallel_utils', 'core'], 'systematic': 1}
+        return parprops.one_preemption_cases(base, parrun.run_par_case, max_cases=2400)
     desc = parprops.tiny_desc(rng)
     base = {'desc': desc, 'epochs': 1, 'items': False, 'cost_seed': None, 'think_seed': 0,
             'think_max': 0, 'trace': ['parallel_utils'], 'systematic': 1}
